@@ -411,15 +411,16 @@ def oracle(case, obs):
                     return ("request_not_8_bytes", f"{where}: request {fr[1:].hex()}")
                 if fr[0] == 2:
                     return ("wrong_cob_id", f"{where}: frame {fr[1:].hex()} not sent to the server's COB-ID")
+        se = x.get("senderr") is not None     # one transmit failed (frame never left), the caller repeated the call
         if not disturbed:
             if nv != nviol:
                 codes = viol[nviol:nv]
-                return ("illegal_request:%d" % codes[0],
+                return ("illegal_frame_after_send_error" if se else "illegal_request:%d" % codes[0],
                         f"{where}: reference server flags {[VIOLATION_NAMES[c] for c in codes]}; trace "
                         f"{[f.hex() for f in trace] if case['full'] else trace}")
             if x["op"] == "dl":
                 if res is not None:
-                    return ("download_failed", f"{where}: {res!r}")
+                    return ("download_stuck_after_send_error" if se else "download_failed", f"{where}: {res!r}")
                 exp[key] = bytes(x["data"])
             else:
                 v = exp.get(key)
@@ -434,7 +435,7 @@ def oracle(case, obs):
                         return ("buffered_read_raises", f"{where}: server holds {len(v)} bytes, style {t.get('style')}, "
                                 f"open(buffering={x['buffering']}).read({x.get('reads')}): {res!r}")
                     if res != want:
-                        return ("upload_wrong_data", f"{where}: server holds {v.hex()} ({len(v)} bytes), style "
+                        return ("upload_wrong_after_send_error" if se else "upload_wrong_data", f"{where}: server holds {v.hex()} ({len(v)} bytes), style "
                                 f"{t.get('style')}, dictionary entry {x.get('shape', 'var')} declared type {declared_type(x)}: got {res!r}, expected {want.hex()}")
         else:
             ok_err = isinstance(res, Abort) or (isinstance(res, Err) and res.kind == E_SDOCOMM)
@@ -611,7 +612,7 @@ def one(kind, ts, store=None, full=True):
     return dict(kind=kind, store=store or [], full=full, ts=ts)
 
 
-SENDERR_DOWNLOADS = False      # download side: candidate defect reported (write() not repeatable after a send error)
+SENDERR_DOWNLOADS = True       # write() repeatable after a transient send error since fix b4d915e
 
 
 def gen_cases(rng, tier):
@@ -724,11 +725,15 @@ def gen_cases(rng, tier):
         for _ in range(rng.randint(2, 5)):
             m = rng.choice(muxes)
             r = rng.random()
+            # now and then a frame is still in the response queue when the transfer starts (a late answer to
+            # an earlier request): request_response discards it before it sends
+            pre = [rng.choice(([0x60, 0, 0x20, 0, 0, 0, 0, 0], [0x00, 1, 2, 3, 4, 5, 6, 7], [0x43, 0, 0x20, 0, 1, 2, 3, 4],
+                               [0x20, 0, 0, 0, 0, 0, 0, 0], [0x41, 0, 0x20, 0, 9, 0, 0, 0]))] if rng.random() < 0.25 else []
             if r < 0.45:
                 n = rng.choice((0, 1, 3, 4, 5, 7, 8, 14, 15, rng.randrange(65)))
-                ts.append(T(dl_x(rng, n, rng.choice(DL_VARIANTS[:9]), mux=m)))
+                ts.append(T(dl_x(rng, n, rng.choice(DL_VARIANTS[:9]), mux=m), pre=pre))
             elif r < 0.9:
-                ts.append(T(ul_x(rng, rng.choice(UL_VARIANTS[:6]), m), rng.choice(STYLES)))
+                ts.append(T(ul_x(rng, rng.choice(UL_VARIANTS[:6]), m), rng.choice(STYLES), pre=pre))
             else:
                 ts.append(T(dict(op="put", idx=m[0], sub=m[1], value=rdata(rng, rng.randrange(12)))))
         cases.append(one("seq", ts, store=store))
